@@ -7,7 +7,7 @@
     and therefore the trie structure (up to the hash caches) and the root hash computed from
     it depend on the key-value content alone — not on the order of operations. *)
 From Coq Require Import List NArith Arith Bool.
-From Kardia Require Import C07.Model C07.ProofsBase C07.ProofsMap C07.ProofsCanon C07.Open.
+From Kardia Require Import C07.Model C07.ProofsBase C07.ProofsMap C07.ProofsCanon C07.ProofsEnc C07.Open.
 Import ListNotations.
 
 (** keybytesToHex is injective on byte strings and yields well-formed keys *)
@@ -19,6 +19,18 @@ Print Assumptions C07_keybytes_hex_injective.
 Theorem C07_keybytes_hex_wellformed : forall bs, is_bytes bs -> wfk (keybytes_to_hex bs).
 Proof. exact keybytes_to_hex_wfk. Qed.
 Print Assumptions C07_keybytes_hex_wellformed.
+
+(** hexToCompact / compactToHex round-trip on every key a trie node can carry (nibbles, with or
+    without the terminator); hence the compact encoding is injective *)
+Theorem C07_compact_roundtrip :
+  forall k, (nibs k \/ wfk k) -> compact_to_hex (hex_to_compact k) = k.
+Proof. exact compact_roundtrip. Qed.
+Print Assumptions C07_compact_roundtrip.
+
+Theorem C07_compact_injective :
+  forall a b, (nibs a \/ wfk a) -> (nibs b \/ wfk b) -> hex_to_compact a = hex_to_compact b -> a = b.
+Proof. exact compact_injective. Qed.
+Print Assumptions C07_compact_injective.
 
 (** Trie.get on a canonical trie returns the node unchanged and the value the content relation
     assigns to the key (empty = absent); the fuel computed from the key always suffices *)
